@@ -3256,6 +3256,14 @@ class Choice(Set):
             return component.effectiveTagSet
 
     @property
+    def minTagSet(self):
+        """Return the :class:`~pyasn1.type.tag.TagSet` that places |ASN.1| in the canonical order of a SET: its own tags, or, if untagged, the smallest among its alternatives (X.690 9.3)."""
+        if self.tagSet:
+            return self.tagSet
+        else:
+            return self.componentType.minTagSet
+
+    @property
     def tagMap(self):
         """"Return a :class:`~pyasn1.type.tagmap.TagMap` object mapping
             ASN.1 tags to ASN.1 objects contained within callee.
